@@ -337,6 +337,15 @@ def run_control(res, prop, spec, tier):
     for name in sorted(os.listdir(sd)) if os.path.isdir(sd) else []:
         if not name.startswith(prop + '_'):
             continue
+        try:
+            meta = json.load(open(os.path.join(sd, name, 'meta.json')))
+        except Exception:
+            meta = {}
+        if meta.get('not_claimed_by_own_check'):
+            # filed under this property by its author, but the statement of this property does not cover what it breaks
+            # (DESIGN 10.4): replayed by the properties that do claim it, not here
+            replay[name] = 'not claimed: ' + meta['not_claimed_by_own_check']
+            continue
         out = _apply_and_analyse(prop, spec, os.path.join(sd, name, 'patch.diff'))
         if out[0] == 'skipped':
             replay[name] = 'skipped: ' + out[1]
